@@ -33,6 +33,7 @@ import (
 	"net"
 	"os"
 	"reflect"
+	"runtime"
 	"sort"
 	"strings"
 	"sync"
@@ -2261,5 +2262,672 @@ func TestC19QueueAdmits(t *testing.T) {
 	col.forward(detReporter{t})
 }
 
-// TMP-UNUSED
-var _ = reflect.TypeOf
+// ---------------------------------------------------------------------------
+// queue resize: "changing a queue length never disconnects a peer"
+
+type resizeCase struct {
+	Proto   string `json:"proto"`
+	Option  string `json:"option"`
+	Initial int    `json:"initial"`
+	N       int    `json:"n"`
+	Traffic bool   `json:"traffic"`
+	SDials  bool   `json:"s_dials,omitempty"`
+}
+
+var resizeNs = []int{0, 1, 2, 16, 128}
+
+func qlenProtos(option string) []string {
+	var out []string
+	for _, p := range fixture.Protos {
+		if hasOpt(p.Name, option) {
+			out = append(out, p.Name)
+		}
+	}
+	return out
+}
+
+func drawResizeCase(t *rapid.T, i int) resizeCase {
+	lbl := fmt.Sprintf("#%d", i)
+	rc := resizeCase{Option: rapid.SampledFrom([]string{oRQ, oRQ, oWQ}).Draw(t, "option"+lbl)}
+	rc.Proto = rapid.SampledFrom(qlenProtos(rc.Option)).Draw(t, "proto"+lbl)
+	rc.Initial = rapid.SampledFrom([]int{1, 2, 4}).Draw(t, "initial"+lbl)
+	rc.N = rapid.SampledFrom(resizeNs).Draw(t, "n"+lbl)
+	rc.Traffic = rapid.IntRange(0, 3).Draw(t, "traffic"+lbl) != 0
+	rc.SDials = rapid.Bool().Draw(t, "sdials"+lbl)
+	return rc
+}
+
+const quiet = 200 * time.Millisecond
+
+func resizeKeys(rc resizeCase) (disc, stall string) {
+	return "C19:resize-disconnects:" + impl(rc.Proto), "C19:resize-stalls:" + impl(rc.Proto)
+}
+
+// resizeExcluded: known shapes are left out.  The disconnect/stall defects need queued traffic.
+func resizeExcluded(rc resizeCase) bool {
+	disc, stall := resizeKeys(rc)
+	if rc.Traffic {
+		for _, k := range []string{disc, stall} {
+			if stats.Known(k) {
+				stats.Excluded(k)
+				return true
+			}
+		}
+	}
+	// sub with READQ-LEN 0 wedges the socket when a message arrives (belongs to C10/C12)
+	return false
+}
+
+// probeAfterResize says whether the liveness probe is meaningful: a queue length of 0 has
+// separate, already recorded problems (push: Send never completes; sub: receiver wedges the
+// socket), so only the "no disconnect" part is checked there.
+func probeAfterResize(rc resizeCase) bool {
+	if rc.N > 0 {
+		return true
+	}
+	if rc.Option == oWQ {
+		return false
+	}
+	return impl(rc.Proto) != "sub"
+}
+
+// runResizeVT: S under test listens on a scripted transport; the harness is the peer.
+func runResizeVT(r reporter, test string, rc resizeCase) {
+	doc := map[string]interface{}{"test": test, "case": rc, "rseed": os.Getenv("VERIF_RSEED")}
+	disc, stall := resizeKeys(rc)
+	s := fixture.New(rc.Proto)
+	defer fixture.Within(5*time.Second, func() { _ = s.Close() })
+	ev := fixture.Hook(s)
+	o := sockObj(s, rc.Proto, "connected")
+	e := newEndp(s, rc.Proto)
+	if !mustSet(r, test, o, rc.Option, intVal(rc.Initial)) {
+		return
+	}
+	if impl(rc.Proto) == "sub" {
+		if !mustSet(r, test, o, oSub, val{[]byte{}, "bytes", "[]byte{}", 0}) {
+			return
+		}
+	}
+	ep, err := vt.Attach(s)
+	if err != nil {
+		r.harness("vt attach: %v", err)
+		return
+	}
+	defer ep.Forget()
+	p, ok := ep.ConnectWait(5 * time.Second)
+	if !ok || !ev.WaitAttached(1, 5*time.Second) {
+		r.harness("vt pipe not attached to %s", rc.Proto)
+		return
+	}
+	e.setDeadlines(100*time.Millisecond, 30*time.Millisecond)
+	seq := uint32(0)
+	inject := func(body string, d time.Duration) int {
+		seq++
+		return p.Inject(wireIn(rc.Proto, seq, []byte(body)), d)
+	}
+	// a cooked surveyor only takes responses to its current survey: ask first, answer with its id
+	askFirst := func(body string) ([]byte, bool) {
+		before := p.SentCount()
+		if err := e.send([]byte("survey-for-"+body), 3*time.Second); err != nil {
+			return nil, false
+		}
+		if !p.WaitSent(before+1, 2*time.Second) {
+			return nil, false
+		}
+		log := p.SentLog()
+		last := log[len(log)-1].Data
+		if len(last) < 4 {
+			return nil, false
+		}
+		return append(append([]byte(nil), last[:4]...), body...), true
+	}
+	// repliers need a request before they may send
+	prime := func(tag string) bool {
+		if role(rc.Proto) != "answerer" {
+			return true
+		}
+		if inject(tag, 3*time.Second) == vt.InjNotTaken {
+			return false
+		}
+		return e.recvUntil([]byte(tag), 600)
+	}
+	full := false
+	if rc.Traffic {
+		if rc.Option == oRQ {
+			// hand over messages until the receiver goroutine is stuck behind a full queue
+			for i := 0; i < rc.Initial+3 && !full; i++ {
+				switch inject(fmt.Sprintf("fill-%d", i), 60*time.Millisecond) {
+				case vt.InjTaken:
+					full = true
+				case vt.InjNotTaken:
+					i = 1 << 20
+				}
+			}
+		} else {
+			p.SetMode(vt.ModeBlock, nil)
+			if !prime("prime") {
+				r.harness("%s did not take the priming request", rc.Proto)
+				return
+			}
+			for i := 0; i < rc.Initial+3; i++ {
+				if err := e.send([]byte(fmt.Sprintf("fill-%d", i)), 3*time.Second); err != nil && !e.raw && role(rc.Proto) == "answerer" {
+					break
+				}
+				if !e.raw && role(rc.Proto) == "answerer" && i < rc.Initial+2 {
+					// a cooked replier answers once per request
+					go inject(fmt.Sprintf("again-%d", i), time.Second)
+					if !e.recvUntil([]byte(fmt.Sprintf("again-%d", i)), 50) {
+						break
+					}
+				}
+			}
+			full = p.WaitBlocked(1, time.Second)
+		}
+	}
+	if full {
+		stats.Class("resize-vt:full")
+	} else {
+		stats.Class("resize-vt:idle")
+	}
+	if !mustSet(r, test, o, rc.Option, intVal(rc.N)) {
+		return
+	}
+	checkRoundTrip(r, test, o, rc.Option, intVal(rc.N))
+	time.Sleep(quiet)
+	if n := ev.Detached(); n != 0 || p.IsClosed() {
+		r.fail(disc, doc, "%s: SetOption(%s, %d) (was %d, queue full=%v) closed the pipe to the peer (detached events=%d, transport pipe closed=%v)", rc.Proto, rc.Option, rc.N, rc.Initial, full, n, p.IsClosed())
+		return
+	}
+	p.SetMode(vt.ModeAccept, nil)
+	if probeAfterResize(rc) {
+		e.setDeadlines(2*time.Second, 2*time.Second)
+		okProbe := false
+		why := ""
+		if rc.Option == oRQ {
+			// empty what is queued, then a fresh message must come through
+			e.setDeadlines(80*time.Millisecond, 2*time.Second)
+			e.drain()
+			e.setDeadlines(2*time.Second, 2*time.Second)
+			for i := 0; i < 4 && !okProbe; i++ {
+				tag := fmt.Sprintf("probe-%d", i)
+				got := make(chan int, 1)
+				if rc.Proto == "surveyor" {
+					wire, ok := askFirst(tag)
+					if !ok {
+						why = "the survey that precedes the probe was not transmitted"
+						continue
+					}
+					go func() { got <- p.Inject(wire, 2*time.Second) }()
+				} else {
+					go func() { got <- inject(tag, 2*time.Second) }()
+				}
+				okProbe = e.recvUntil([]byte(tag), 600)
+				if res := <-got; res == vt.InjNotTaken {
+					why = "the receiver no longer takes messages from the pipe"
+				} else if !okProbe {
+					why = "the message was taken from the pipe but never delivered to Recv"
+				}
+			}
+		} else {
+			for i := 0; i < 5 && !okProbe; i++ {
+				tag := fmt.Sprintf("probe-%d", i)
+				if !prime(tag + "-req") {
+					why = "the socket no longer receives the request it should answer"
+					continue
+				}
+				if err := e.send([]byte(tag), 3*time.Second); err != nil {
+					why = fmt.Sprintf("Send failed: %v", err)
+					continue
+				}
+				deadline := time.Now().Add(time.Second)
+				for !okProbe && time.Now().Before(deadline) {
+					for _, m := range p.SentLog() {
+						if bytes.HasSuffix(m.Data, []byte(tag)) {
+							okProbe = true
+						}
+					}
+					if !okProbe {
+						time.Sleep(5 * time.Millisecond)
+					}
+				}
+				if !okProbe {
+					why = "Send returned nil but the message never reached the transport"
+				}
+			}
+		}
+		if n := ev.Detached(); n != 0 || p.IsClosed() {
+			r.fail(disc, doc, "%s: after SetOption(%s, %d) (was %d, queue full=%v) the pipe was closed while probing", rc.Proto, rc.Option, rc.N, rc.Initial, full)
+			return
+		}
+		if !okProbe {
+			r.fail(stall, doc, "%s: after SetOption(%s, %d) (was %d, queue full=%v) the peer is still attached but messages no longer pass: %s", rc.Proto, rc.Option, rc.N, rc.Initial, full, why)
+			return
+		}
+	}
+	stats.Eval()
+	stats.NonTrivial(fmt.Sprintf("resize-vt|%s|%s|%d|%d|%v", rc.Proto, rc.Option, rc.Initial, rc.N, full))
+}
+
+func TestC19ResizeVT(t *testing.T) {
+	const test = "TestC19ResizeVT"
+	stats.ScaledChecks(10, 8, func() {
+		rapid.Check(t, func(t *rapid.T) {
+			n := rapid.IntRange(4, 8).Draw(t, "batch")
+			col := &collector{}
+			var fs []func()
+			var cases []resizeCase
+			for i := 0; i < n; i++ {
+				rc := drawResizeCase(t, i)
+				if resizeExcluded(rc) {
+					continue
+				}
+				cases = append(cases, rc)
+				fs = append(fs, func() { runResizeVT(col, test, rc) })
+			}
+			parallel(fs)
+			col.forward(rapidReporter{t})
+			stats.Sample(map[string]interface{}{"test": test, "cases": cases})
+		})
+	})
+}
+
+// runResizeInproc: S and a cooked peer P, connected over inproc; both ends are watched.
+func runResizeInproc(r reporter, test string, rc resizeCase) {
+	doc := map[string]interface{}{"test": test, "case": rc, "rseed": os.Getenv("VERIF_RSEED")}
+	disc, stall := resizeKeys(rc)
+	peerProto := cookedPeer(rc.Proto)
+	s := fixture.New(rc.Proto)
+	pr := fixture.New(peerProto)
+	defer fixture.Within(5*time.Second, func() { _ = s.Close(); _ = pr.Close() })
+	o := sockObj(s, rc.Proto, "connected")
+	S, P := newEndp(s, rc.Proto), newEndp(pr, peerProto)
+	if !mustSet(r, test, o, rc.Option, intVal(rc.Initial)) {
+		return
+	}
+	// small queues on the peer so that a backlog really builds up
+	_ = pr.SetOption(oRQ, 1)
+	_ = pr.SetOption(oWQ, 1)
+	for _, x := range []*endp{S, P} {
+		if impl(x.proto) == "sub" {
+			if err := x.s.SetOption(oSub, []byte{}); err != nil {
+				r.harness("subscribe: %v", err)
+				return
+			}
+		}
+	}
+	var lk *fixture.Link
+	var err error
+	if rc.SDials {
+		lk, err = fixture.Connect(pr, s, "inproc")
+	} else {
+		lk, err = fixture.Connect(s, pr, "inproc")
+	}
+	if err != nil {
+		r.harness("connect %s/%s: %v", rc.Proto, peerProto, err)
+		return
+	}
+	S.setDeadlines(100*time.Millisecond, 30*time.Millisecond)
+	P.setDeadlines(100*time.Millisecond, 30*time.Millisecond)
+	k := rc.Initial + 4
+	if rc.Traffic {
+		inbound := rc.Option == oRQ
+		switch ro := role(rc.Proto); {
+		case inbound && (ro == "peer" || ro == "sink" || ro == "answerer"):
+			for i := 0; i < k; i++ {
+				_ = P.send([]byte(fmt.Sprintf("fill-%d", i)), 2*time.Second)
+			}
+		case inbound && ro == "asker":
+			// replies pile up at S: S asks, P answers, S does not receive
+			for i := 0; i < k; i++ {
+				q := []byte(fmt.Sprintf("fill-q%d", i))
+				if S.send(q, 2*time.Second) != nil || !P.recvUntil(q, 50) {
+					break
+				}
+				_ = P.send([]byte(fmt.Sprintf("fill-a%d", i)), 2*time.Second)
+			}
+		case !inbound && (ro == "peer" || ro == "src" || ro == "asker"):
+			for i := 0; i < k; i++ {
+				_ = S.send([]byte(fmt.Sprintf("fill-%d", i)), 2*time.Second)
+			}
+		case !inbound && ro == "answerer":
+			for i := 0; i < k; i++ {
+				q := []byte(fmt.Sprintf("fill-q%d", i))
+				if P.send(q, 2*time.Second) != nil || !S.recvUntil(q, 50) {
+					break
+				}
+				_ = S.send([]byte(fmt.Sprintf("fill-a%d", i)), 2*time.Second)
+			}
+		}
+		time.Sleep(40 * time.Millisecond) // let the backlog settle in the queues
+		stats.Class("resize-inproc:traffic")
+	} else {
+		stats.Class("resize-inproc:idle")
+	}
+	if lk.LE.Detached()+lk.DE.Detached() != 0 {
+		r.harness("%s/%s link dropped before the resize", rc.Proto, peerProto)
+		return
+	}
+	if !mustSet(r, test, o, rc.Option, intVal(rc.N)) {
+		return
+	}
+	checkRoundTrip(r, test, o, rc.Option, intVal(rc.N))
+	time.Sleep(quiet)
+	if l, d := lk.LE.Detached(), lk.DE.Detached(); l+d != 0 {
+		r.fail(disc, doc, "%s connected to %s over inproc: SetOption(%s, %d) (was %d, traffic queued=%v) disconnected the peer (detached events: listener side %d, dialer side %d)", rc.Proto, peerProto, rc.Option, rc.N, rc.Initial, rc.Traffic, l, d)
+		return
+	}
+	if probeAfterResize(rc) {
+		S.setDeadlines(80*time.Millisecond, 2*time.Second)
+		P.setDeadlines(80*time.Millisecond, 2*time.Second)
+		parallel([]func(){S.drain, P.drain})
+		S.setDeadlines(time.Second, 2*time.Second)
+		P.setDeadlines(time.Second, 2*time.Second)
+		okAlive, which := alive(S, P, "probe")
+		if l, d := lk.LE.Detached(), lk.DE.Detached(); l+d != 0 {
+			r.fail(disc, doc, "%s connected to %s over inproc: after SetOption(%s, %d) (was %d, traffic queued=%v) the peer was disconnected while probing", rc.Proto, peerProto, rc.Option, rc.N, rc.Initial, rc.Traffic)
+			return
+		}
+		if !okAlive {
+			r.fail(stall, doc, "%s connected to %s over inproc: after SetOption(%s, %d) (was %d, traffic queued=%v) both ends are still attached but no message passes any more (%s)", rc.Proto, peerProto, rc.Option, rc.N, rc.Initial, rc.Traffic, which)
+			return
+		}
+	}
+	stats.Eval()
+	stats.NonTrivial(fmt.Sprintf("resize-inproc|%s|%s|%d|%d|%v|%v", rc.Proto, rc.Option, rc.Initial, rc.N, rc.Traffic, rc.SDials))
+}
+
+func TestC19ResizeInproc(t *testing.T) {
+	const test = "TestC19ResizeInproc"
+	stats.ScaledChecks(10, 8, func() {
+		rapid.Check(t, func(t *rapid.T) {
+			n := rapid.IntRange(4, 8).Draw(t, "batch")
+			col := &collector{}
+			var fs []func()
+			var cases []resizeCase
+			for i := 0; i < n; i++ {
+				rc := drawResizeCase(t, i)
+				if resizeExcluded(rc) {
+					continue
+				}
+				if impl(rc.Proto) == "sub" && rc.N == 0 && rc.Traffic {
+					rc.Traffic = false // messages in flight would wedge the sub socket (C10/C12)
+				}
+				cases = append(cases, rc)
+				fs = append(fs, func() { runResizeInproc(col, test, rc) })
+			}
+			parallel(fs)
+			col.forward(rapidReporter{t})
+			stats.Sample(map[string]interface{}{"test": test, "cases": cases})
+		})
+	})
+}
+
+// ---------------------------------------------------------------------------
+// TestC19UnsupportedOps
+
+func wantProtoOp(r reporter, test, proto, state, op string, res outcome) {
+	doc := map[string]interface{}{"test": test, "proto": proto, "state": state, "op": op}
+	key := "C19:unsupported-op:" + impl(proto) + ":" + op
+	switch {
+	case res.hung:
+		r.fail("C19:hang:"+impl(proto)+":"+op, doc, "%s (%s) %s did not return within %v; want ErrProtoOp at once", proto, state, op, hangLimit)
+	case res.pan != nil:
+		r.fail("C19:panic:"+impl(proto)+":"+op, doc, "%s (%s) %s panicked: %v\n%s", proto, state, op, res.pan, res.stack)
+	case res.err != mangos.ErrProtoOp:
+		r.fail(key, doc, "%s (%s) %s = %s, want ErrProtoOp", proto, state, op, errName(res.err))
+	case res.val != nil && !reflect.ValueOf(res.val).IsZero():
+		r.fail(key, doc, "%s (%s) %s returned a value (%v) together with ErrProtoOp", proto, state, op, res.val)
+	}
+	stats.Eval()
+	stats.Class("unsupported:" + op)
+	stats.NonTrivial("unsupported|" + proto + "|" + state + "|" + op)
+}
+
+func TestC19UnsupportedOps(t *testing.T) {
+	const test = "TestC19UnsupportedOps"
+	r := detReporter{t}
+	for _, p := range fixture.Protos {
+		for _, connected := range []bool{false, true} {
+			func() {
+				c := &closer{}
+				defer c.closeAll()
+				s := fixture.New(p.Name)
+				state := "fresh"
+				var peer mangos.Socket
+				if connected {
+					state = "connected"
+					var err error
+					if peer, _, err = connectPeer(c, s, p); err != nil {
+						t.Fatalf("harness: %v", err)
+					}
+				}
+				c.sock(s)
+				S := newEndp(s, p.Name)
+				before := len(fixture.MangosGoroutines())
+				if !p.Contexts {
+					res := guard(func() (interface{}, error) {
+						ctx, err := s.OpenContext()
+						if ctx == nil { // typed nil inside the interface
+							return nil, err
+						}
+						return ctx, err
+					})
+					wantProtoOp(r, test, p.Name, state, "OpenContext", res)
+				} else {
+					res := guard(func() (interface{}, error) { return s.OpenContext() })
+					if res.err != nil || res.val == nil || res.pan != nil || res.hung {
+						r.fail("C19:open-context:"+p.Name, map[string]interface{}{"test": test, "proto": p.Name}, "%s OpenContext = (%v, %s), want a context", p.Name, res.val, errName(res.err))
+					} else {
+						ctx := res.val.(mangos.Context)
+						if !p.CanSend {
+							wantProtoOp(r, test, p.Name, state, "Context.Send", guardErr(func() error { return ctx.Send([]byte("x")) }))
+						}
+						_ = ctx.Close()
+					}
+				}
+				if !p.CanRecv {
+					wantProtoOp(r, test, p.Name, state, "Recv", guard(func() (interface{}, error) {
+						b, err := s.Recv()
+						if b == nil {
+							return nil, err
+						}
+						return b, err
+					}))
+					wantProtoOp(r, test, p.Name, state, "RecvMsg", guard(func() (interface{}, error) {
+						m, err := s.RecvMsg()
+						if m == nil {
+							return nil, err
+						}
+						return m, err
+					}))
+				}
+				if !p.CanSend {
+					wantProtoOp(r, test, p.Name, state, "Send", guardErr(func() error { return s.Send([]byte("x")) }))
+					wantProtoOp(r, test, p.Name, state, "SendMsg", guardErr(func() error {
+						m := mangos.NewMessage(1)
+						m.Body = append(m.Body, 'x')
+						err := s.SendMsg(m)
+						if err != nil {
+							m.Free()
+						}
+						return err
+					}))
+				}
+				if p.CanRecv && p.CanSend {
+					return
+				}
+				// no side effect: nothing started, and the operation the pattern does have still works
+				if after := len(fixture.MangosGoroutines()); after > before {
+					r.fail("C19:unsupported-op-side-effect:"+impl(p.Name), map[string]interface{}{"test": test, "proto": p.Name, "state": state}, "%s (%s): the refused operations left %d additional library goroutine(s)", p.Name, state, after-before)
+				}
+				if !connected {
+					return
+				}
+				P := newEndp(peer, p.PeerName)
+				for _, x := range []*endp{S, P} {
+					if x.proto == "sub" {
+						_ = x.s.SetOption(oSub, []byte{})
+					}
+					x.setDeadlines(time.Second, 2*time.Second)
+				}
+				if ok, which := alive(S, P, "after-refusal"); !ok {
+					r.fail("C19:unsupported-op-side-effect:"+impl(p.Name), map[string]interface{}{"test": test, "proto": p.Name, "state": state}, "%s: after the refused operations the supported direction no longer works (%s)", p.Name, which)
+				}
+				stats.Class("unsupported:still-works")
+			}()
+		}
+	}
+	stats.Extra("unsupported_ops_axis", "24 constructors x fresh/connected x {Recv, RecvMsg, Send, SendMsg, OpenContext, Context.Send}")
+}
+
+// ---------------------------------------------------------------------------
+// TestC19Device
+
+func deviceWant(a, b *fixture.Proto) (want []error) {
+	if a == nil && b == nil {
+		return []error{mangos.ErrClosed}
+	}
+	if a == nil {
+		a = b
+	}
+	if b == nil {
+		b = a
+	}
+	mismatch := a.Self != b.Peer || b.Self != a.Peer
+	cooked := !a.Raw || !b.Raw
+	switch {
+	case mismatch && cooked:
+		// the documentation does not order the two checks
+		return []error{mangos.ErrBadProto, mangos.ErrNotRaw}
+	case mismatch:
+		return []error{mangos.ErrBadProto}
+	case cooked:
+		return []error{mangos.ErrNotRaw}
+	}
+	return []error{nil}
+}
+
+const forwarderFrame = "mangos/v3.forwarder"
+
+// countForwarders is fixture.CountGoroutines(forwarderFrame) with a small, growing buffer
+// (it is called about a thousand times).
+func countForwarders() int {
+	buf := make([]byte, 1<<16)
+	for {
+		n := runtime.Stack(buf, true)
+		if n < len(buf) {
+			buf = buf[:n]
+			break
+		}
+		buf = make([]byte, 2*len(buf))
+	}
+	c := 0
+	for _, g := range bytes.Split(buf, []byte("\n\n")) {
+		if bytes.Contains(g, []byte(forwarderFrame)) {
+			c++
+		}
+	}
+	return c
+}
+
+func TestC19Device(t *testing.T) {
+	const test = "TestC19Device"
+	r := detReporter{t}
+	if n := countForwarders(); n != 0 {
+		t.Fatalf("harness: %d forwarder goroutines before the test", n)
+	}
+	var cands []*fixture.Proto
+	cands = append(cands, nil)
+	for i := range fixture.Protos {
+		cands = append(cands, &fixture.Protos[i])
+	}
+	name := func(p *fixture.Proto) string {
+		if p == nil {
+			return "nil"
+		}
+		return p.Name
+	}
+	for _, a := range cands {
+		for _, b := range cands {
+			for _, same := range []bool{false, true} {
+				if same && (a == nil || a != b) {
+					continue // the same socket passed twice is a case of its own
+				}
+				var s1, s2 mangos.Socket
+				if a != nil {
+					s1 = fixture.New(a.Name)
+				}
+				if b != nil {
+					if same {
+						s2 = s1
+					} else {
+						s2 = fixture.New(b.Name)
+					}
+				}
+				doc := map[string]interface{}{"test": test, "s1": name(a), "s2": name(b), "same_socket": same}
+				res := guardErr(func() error { return mangos.Device(s1, s2) })
+				want := deviceWant(a, b)
+				key := "C19:device:" + name(a) + ":" + name(b)
+				okRes := false
+				for _, w := range want {
+					if res.err == w {
+						okRes = true
+					}
+				}
+				switch {
+				case res.hung:
+					r.fail("C19:hang:device", doc, "Device(%s,%s) did not return", name(a), name(b))
+				case res.pan != nil:
+					r.fail("C19:panic:device:"+name(a)+":"+name(b), doc, "Device(%s,%s) panicked: %v\n%s", name(a), name(b), res.pan, res.stack)
+				case !okRes:
+					var ws []string
+					for _, w := range want {
+						ws = append(ws, errName(w))
+					}
+					r.fail(key, doc, "Device(%s,%s) = %s, want %s", name(a), name(b), errName(res.err), strings.Join(ws, " or "))
+				case res.err != nil:
+					// refused: nothing may have been started
+					if n := countForwarders(); n != 0 {
+						r.fail("C19:device-side-effect", doc, "Device(%s,%s) failed with %s but %d forwarder goroutine(s) are running", name(a), name(b), errName(res.err), n)
+					}
+					// and the sockets are untouched: still open, still answering
+					for _, s := range []mangos.Socket{s1, s2} {
+						if s == nil {
+							continue
+						}
+						if _, err := s.GetOption(oRaw); err != nil {
+							r.fail("C19:device-side-effect", doc, "after the refused Device(%s,%s) GetOption(RAW) fails with %s", name(a), name(b), errName(err))
+						}
+					}
+				default:
+					// (a forwarder whose source cannot receive, e.g. XPUB, ends at once: no count is asserted)
+					stats.Class("device:started")
+				}
+				for _, s := range []mangos.Socket{s1, s2} {
+					if s != nil {
+						_ = s.Close()
+					}
+				}
+				if res.err == nil && !res.hung && res.pan == nil {
+					deadline := time.Now().Add(5 * time.Second)
+					for countForwarders() != 0 && time.Now().Before(deadline) {
+						time.Sleep(time.Millisecond)
+					}
+					if n := countForwarders(); n != 0 {
+						t.Fatalf("harness: %d forwarders still running after closing Device(%s,%s) sockets", n, name(a), name(b))
+					}
+				}
+				stats.Eval()
+				stats.Class("device:" + strings.Join(func() []string {
+					var ws []string
+					for _, w := range want {
+						ws = append(ws, errName(w))
+					}
+					return ws
+				}(), "|"))
+				stats.NonTrivial("device|" + name(a) + "|" + name(b) + fmt.Sprint(same))
+			}
+		}
+	}
+	stats.Extra("device_axis", "25x25 (24 constructors + nil) ordered pairs, plus each constructor with itself as the same socket: exhaustive")
+}
